@@ -289,6 +289,26 @@ def parse_cbmc_json(path):
     return results, stats, "; ".join(errors)
 
 
+def inputs_from_trace(trace):
+    """the values of the harness's kani::any() calls, in call order, as little-endian byte lists
+    (the same information Kani's concrete playback prints): the first assignment to `var_0`
+    inside each activation of kani::any_raw_internal::<T>"""
+    vals = []
+    for st in trace:
+        if st.get("stepType") != "assignment" or st.get("lhs") != "var_0":
+            continue
+        fn = st.get("sourceLocation", {}).get("function", "")
+        if not fn.startswith("kani::any_raw_internal::<"):
+            continue
+        v = st.get("value", {})
+        b = v.get("binary")
+        if b is None or len(b) % 8 != 0:
+            return None
+        n = int(b, 2)
+        vals.append([(n >> (8 * i)) & 0xFF for i in range(len(b) // 8)])
+    return vals
+
+
 def prop_class(name):
     parts = name.split(".")
     return parts[-2] if len(parts) >= 2 else "unknown"
@@ -440,19 +460,49 @@ def run_harness_once(rec, scratch, mem_gb, timeout, unwind, keep_symtab=False):
     results, stats, err = parse_cbmc_json(logp)
     res.update(stats)
     res.update(wall_s=round(time.time() - t0, 2), cbmc_wall_s=round(wall, 2), peak_rss_mb=rss // 1024, cbmc_rc=rc)
+    def _cleanup():
+        for f in ((out,) if keep_symtab else (out, rec["symtab"])):
+            try:
+                os.unlink(f)
+            except OSError:
+                pass
+    if rc == "timeout":
+        _cleanup()
+        res.update(status="inconclusive", reason="wall-clock cap %ds reached" % timeout)
+        return res
+    if results is None:
+        _cleanup()
+        res.update(status="inconclusive", reason="cbmc gave no result list (rc=%s, out of memory under the %s GB cap?) %s" % (rc, mem_gb, err))
+        return res
+    c = classify(results, name.endswith("_xp"))
+    res.update(c)
+    if c["status"] == "counterexample" and os.path.exists(out):
+        # same query again with --trace: concrete values of the symbolic inputs per failing check
+        tcmd = cmd[:-3] + ["--trace", "--verbosity", "4", "--json-ui"]
+        tlog = logp + ".trace"
+        trc, twall, trss = run_capped(tcmd, tlog, mem_gb, timeout)
+        cex = []
+        try:
+            doc = json.load(open(tlog))
+            for m in doc:
+                if isinstance(m, dict) and "result" in m:
+                    for r in m["result"]:
+                        if r.get("status") == "FAILURE" and "trace" in r and prop_class(r.get("property", "")) not in ("cover", "unwind"):
+                            vals = inputs_from_trace(r["trace"])
+                            if vals is not None:
+                                cex.append({"property": r.get("property"), "description": r.get("description", "").strip().strip('"'), "inputs": vals})
+        except Exception:
+            pass
+        res["cex"] = cex
+        try:
+            os.unlink(tlog)
+        except OSError:
+            pass
     for f in ((out,) if keep_symtab else (out, rec["symtab"])):
         try:
             os.unlink(f)
         except OSError:
             pass
-    if rc == "timeout":
-        res.update(status="inconclusive", reason="wall-clock cap %ds reached" % timeout)
-        return res
-    if results is None:
-        res.update(status="inconclusive", reason="cbmc gave no result list (rc=%s, out of memory under the %s GB cap?) %s" % (rc, mem_gb, err))
-        return res
-    c = classify(results, name.endswith("_xp"))
-    res.update(c)
     try:
         os.unlink(logp)
     except OSError:
